@@ -75,7 +75,7 @@ fn c13_update_mask_size_contract() {
 
 // typed setters/getters on the real map, one field at a time (one or two map entries)
 macro_rules! roundtrip {
-    ($name:ident, $unw:expr, |$vals:ident, $hdr:ident, $dirty:ident, $bit:ident| $set:block, $check:block) => {
+    ($name:ident, $unw:expr, |$vals:ident, $hdr:ident, $dirty:ident, $bit:ident| $set:block) => {
         #[kani::proof]
         #[kani::unwind($unw)]
         fn $name() {
@@ -84,10 +84,9 @@ macro_rules! roundtrip {
             let mut $dirty: Vec<u32> = Vec::new();
             let $bit: u16 = kani::any();
             kani::assume($bit < 62);
-            $set
+            $set;
             assert!($hdr.len() == $dirty.len(), "C13:header-and-dirty-mask-keep-equal-length");
             assert!(bit_of(&$hdr, $bit) && bit_of(&$dirty, $bit), "C13:setter-marks-field-present-and-dirty");
-            $check
             std::mem::forget($vals);
         }
     };
@@ -96,29 +95,29 @@ roundtrip!(c13_int_roundtrip, 8, |vals, hdr, dirty, bit| {
     let v: i32 = kani::any();
     set_int(&mut vals, &mut hdr, Some(&mut dirty), bit, v);
     assert!(get_int(&vals, bit) == Some(v), "C13:getter-returns-the-value-last-set-(int)");
-}, {});
+});
 roundtrip!(c13_float_roundtrip, 8, |vals, hdr, dirty, bit| {
     let v: u32 = kani::any();
     set_float(&mut vals, &mut hdr, Some(&mut dirty), bit, f32::from_bits(v));
     assert!(get_float(&vals, bit).map(|f| f.to_bits()) == Some(v), "C13:getter-returns-the-value-last-set-(float)");
-}, {});
+});
 roundtrip!(c13_bytes_roundtrip, 8, |vals, hdr, dirty, bit| {
     let (a, b, c, d): (u8, u8, u8, u8) = (kani::any(), kani::any(), kani::any(), kani::any());
     set_bytes(&mut vals, &mut hdr, Some(&mut dirty), bit, a, b, c, d);
     assert!(get_bytes(&vals, bit) == Some((a, b, c, d)), "C13:getter-returns-the-value-last-set-(bytes)");
-}, {});
+});
 roundtrip!(c13_shorts_roundtrip, 8, |vals, hdr, dirty, bit| {
     let (a, b): (u16, u16) = (kani::any(), kani::any());
     set_shorts(&mut vals, &mut hdr, Some(&mut dirty), bit, a, b);
     assert!(get_shorts(&vals, bit) == Some((a, b)), "C13:getter-returns-the-value-last-set-(two-shorts)");
-}, {});
+});
 roundtrip!(c13_guid_roundtrip, 8, |vals, hdr, dirty, bit| {
     let g: u64 = kani::any();
     set_guid(&mut vals, &mut hdr, Some(&mut dirty), bit, crate::Guid::new(g));
     assert!(get_guid(&vals, bit).map(|x| x.guid()) == Some(g), "C13:getter-returns-the-value-last-set-(guid)");
     assert!(vals.get(&bit) == Some(&(g as u32)) && vals.get(&(bit + 1)) == Some(&((g >> 32) as u32)), "C13:guid-is-stored-low-word-then-high-word");
     assert!(bit_of(&hdr, bit + 1) && bit_of(&dirty, bit + 1), "C13:guid-marks-both-words");
-}, {});
+});
 
 // wire form: count byte, blocks = header & dirty, then the values of present-and-dirty fields in ascending index
 #[kani::proof]
@@ -128,7 +127,7 @@ fn c13_write_and_read_one_field() {
     let mut hdr: Vec<u32> = Vec::new();
     let mut dirty: Vec<u32> = Vec::new();
     let bit: u16 = kani::any();
-    kani::assume(bit < 62);
+    kani::assume(bit < 32);
     let v: u32 = kani::any();
     header_set(&mut vals, &mut hdr, Some(&mut dirty), bit, v);
     let reset: bool = kani::any();
